@@ -19,7 +19,7 @@ CHECKS = {
          "Exploration: ~1.5k (quick) / ~57k (thorough) chains of 1-4 stages on hard and LJ states of all groups (4M+ evaluated states range-checked in quick), with bounds re-derived from each stage's own start, labels and degrees of freedom per family, finite defined score of the re-read result, no panic; and from_group validity for every group x {polygon 3..64, circle, trimers} x potential.",
          "Ranges are those stated by the property, not read from the code; results are read back through serde JSON as a user would.",
          "DESIGN.md 5 C08"),
- "C20": ("trace monitor call counting + bit-exact prefix comparison of convergent vs full runs + loop-boundary convergence rule; process-boundary classifier on the real CLI incl. syscall fault injection (strace) on the output files and output paths that are not UTF-8",
+ "C20": ("trace monitor call counting + bit-exact prefix comparison of convergent vs full runs + loop-boundary convergence rule; process-boundary classifier on the real CLI incl. syscall fault injection (strace) on the output files output paths that are not UTF-8, and standard streams that cannot be written",
          "Exploration: ~3k (quick) / ~96k (thorough) library configurations over steps/inner_steps in {0,1,2,3,7,999,1000,1001,2500,1e5} x temperatures x schedules x thresholds (no panic, work within [steps - one loop, steps], convergent run an exact prefix, exit at exactly the loop the rule dictates) and ~120 (quick) / ~2500 (thorough) runs of the real binary (incl. debug logging on, 'run until converged' step counts, unwritable paths) classified by exit status, stderr and output files; plus fault enumeration: each of the six system calls on the two output files made to fail in turn with ENOSPC/EIO/EACCES/EINTR (72 fault points). Library cases that can abort the process (allocation failure) run in a child process.",
          "The convergence rule is decided only when the loop-boundary scores are unambiguous from the trace (counted in the evidence).",
          "DESIGN.md 5 C20"),
@@ -39,11 +39,11 @@ CHECKS = {
          "Exploration / statistical: 103 schedule configurations (ratio, finish, both, neither, zero; 1..50 loops and thousands of tiny loops; jammed stretches of fully rejected loops) with 2e4 (quick) / 6e5 (thorough) probes per loop; windows of loops are compared with the probability interval implied by the allowed temperature interval, Chernoff/KL bound < 1e-12 to flag.",
          "Temperature is inferred, resolution ~1.3/sqrt(n) per window; 'neither' pins only the first loop.",
          "DESIGN.md 5 C18"),
- "C19": ("trace monitor: size of every proposal's single-parameter move against every possible parent, under scripted rejection histories; lean freeze-and-release runs of up to 1e9+ proposals measured against the last accepted vector",
+ "C19": ("trace monitor: size of every proposal's single-parameter move against every possible parent, under scripted rejection histories; lean freeze-and-release runs of up to 1e9+ proposals measured against the last accepted vector; process-boundary leg on the real CLI (structure vs its start under --max-step-size 0 / 1e-9 / 1e-6)",
          "Exploration: ~5k (quick) / ~240k (thorough) runs, ~30M proposals (quick): largest move in units of half the parameter range must not exceed max_step_size, for 0..100% rejection per loop, 1..50 loops, steps 1e-4..1, k = 1..24, and real states with the declared ranges.",
          "Measured against the most favourable possible parent (conservative).",
          "DESIGN.md 5 C19"),
- "C03": ("differential runtime monitor: PotentialState::score vs exhaustive lattice sum over every image within cutoff + metamorphic re-descriptions of one crystal + state objects edited over histories",
+ "C03": ("differential runtime monitor: PotentialState::score vs exhaustive lattice sum over every image within cutoff + metamorphic re-descriptions of one crystal + state objects edited over histories + multi-site states (up to 140 molecules) + user-defined p4/p3/p6 groups",
          "Exploration: ~0.3M (quick) / ~19M (thorough) LJ states of all groups (circle, trimers) from strongly overlapping to dilute, each compared with an exhaustive per-molecule lattice sum (1e-9 of term magnitudes; 3% of the attractive sum for the uncut circle) and with equivalent descriptions (copy moved across a cell face, origin shifted by normaliser translations). One open known finding (images beyond the third shell inside the cutoff) is reported as KNOWN-FINDING and keyed by an oracle-computed predicate.",
          "The pair kernel is the library's LJ2::energy (decided by C13), cross-checked against the independent law for like particles.",
          "DESIGN.md 5 C03"),
